@@ -1,5 +1,6 @@
 import Qryn.Ingest.Faults
 import Qryn.Ingest.PreRequest
+import Qryn.Ingest.IngestParams
 import Qryn.Base.Bytes
 /-! Line protocol for C05.
     `c05ingest <fixes: 0 = pinned | 1 = fixed> <route 0..10> <encoding 0..3> <tree tokens…>` → `s<status>|crash|hang r<0|1>`
@@ -14,6 +15,11 @@ import Qryn.Base.Bytes
       → `reject|asSent|decoded s<status> alloc=<bytes> dec=<bytes Decode allocates>`
     `c05limit` → the limit of withUnsnappyRequest as generated (`Gen.PreRequest.unsnappyLimit`)
     `c05declen <hex|->` → `ok <n>` | `err` (`refDecodedLen`, compared with `snappy.DecodedLen`)
+    `c05ttl <X-Ttl-Days hex|->` → the TTL the overall middleware stores (`IngestParams.ttlDays`)
+    `c05async <X-Async-Insert hex|->` → the insert mode it stores (`IngestParams.asyncMode`)
+    `c05head <handler constructor> <Content-Encoding known 0|1> <Content-Type hex|-> <precision hex|-> <from hex|->
+             <name hex|-> <until hex|->` → `reject <status>` | `parser <key hex|->` (`IngestParams.headOf`)
+    (header values are valid UTF-8 in these three ops)
     A document is a tree of naturals written with `(` `)` as separate tokens. -/
 namespace Driver.C05
 open Qryn.IngestFaults
@@ -223,6 +229,10 @@ def pre (route : Route) (ce : String) (body stream : Buf) (gzOk eof decOk : Bool
     let st := if s.eof then showOutcome (ingestFull fixed flushThreshold ⟨true⟩ route ⟨.plain, b⟩ .empty).1 else "s?"
     (match src with | .asSent => "asSent " | .decoded => "decoded ") ++ st ++ tail
 
+/-- a header / query value: hex of valid UTF-8 -/
+def str? (hx : String) : Option String := do
+  String.fromUTF8? (ByteArray.mk (← Qryn.ofHex hx).toArray)
+
 def handle : List String → Option String
   | "c05pre" :: r :: ce :: bl :: bh :: gz :: sl :: shd :: eof :: dok :: dl :: sd :: dd :: toks => do
     let route ← route? (← r.toNat?)
@@ -233,6 +243,19 @@ def handle : List String → Option String
     let doc ← body? t
     some (pre route ceS ⟨← bl.toNat?, ← Qryn.ofHex bh⟩ ⟨← sl.toNat?, ← Qryn.ofHex shd⟩ (← bit? gz) (← bit? eof)
       (← bit? dok) (← dl.toNat?) (← bit? sd) (← bit? dd) doc)
+  | ["c05ttl", hx] => do some (toString (Qryn.IngestParams.ttlDays (← str? hx)))
+  | ["c05async", hx] => do some (toString (Qryn.IngestParams.asyncMode (← str? hx)))
+  | ["c05head", handler, ce, ct, prec, fromV, nameV, untilV] => do
+    let ctS ← str? ct
+    let p ← str? prec
+    let f ← str? fromV
+    let n ← str? nameV
+    let u ← str? untilV
+    let q : String → String := fun k => if k == "precision" then p else if k == "from" then f else if k == "name" then n
+      else if k == "until" then u else ""
+    match Qryn.IngestParams.headOf handler (← bit? ce) ctS q with
+    | .reject st => some s!"reject {st}"
+    | .parser k => some s!"parser {Qryn.hexOut k.toUTF8.toList}"
   | ["c05limit"] => some (toString Qryn.Gen.PreRequest.unsnappyLimit)
   | ["c05declen", hx] => do
     match Qryn.PreRequest.refDecodedLen (← Qryn.ofHex hx) with
